@@ -22,7 +22,7 @@ GO = ["cluster"]
 PROP = "props/C16.v"
 PROOFS = ["proofs/ClusterPlan.v", "proofs/ClusterFix.v", "proofs/ClusterFixPlan.v", "proofs/ClusterRun.v",
           "proofs/ClusterInv.v", "proofs/ClusterStep.v", "proofs/ClusterMain.v", "proofs/ClusterRound.v",
-          "proofs/ClusterRoundB.v", "proofs/ClusterRoundC.v", "proofs/ClusterHist.v",
+          "proofs/ClusterRoundB.v", "proofs/ClusterRoundC.v", "proofs/ClusterHist.v", "proofs/ClusterFsm.v",
           "model/Cluster.v", "model/ClusterLTS.v", "lib/LTS.v"]
 HOOK = "runnables/httpcluster/verif_export.go"
 SFX = ":stop"
@@ -329,6 +329,8 @@ def runner_leg(run, args, stats, samples, timeout=1500):
                               "the runner produced a trace the protocol model cannot produce (%s)" % info, True)
             else:
                 stats["flaky_rejects"] = stats.get("flaky_rejects", 0) + 1
+                stats.setdefault("flaky_samples", []).append(
+                    {"script": sc, "trace": " ".join(st), "acceptor": info})
         if len(samples) < 5 and v == "ACCEPT":
             samples.append({"script": sc, "trace": " ".join(st)})
 
